@@ -205,9 +205,9 @@ func (r *runner) free(o *sop, e ev) {
 					pl.CArray.Alloc(len(body))
 					copy(pl.CArray.Body, body)
 					cmem.DBRL.SetData.AddSizeAndCount(pl.CArray.Cap)
-					vl.emit(ev{"a": "Inv", "l": 1, "p": p, "op": "set", "k": k, "val": v})
+					vl.emit(ev{"a": "Inv", "l": 1, "p": p, "op": "set", "k": k, "val": v*8 + 1})
 					err := r.store.Set(ki, pl)
-					vl.emit(ev{"a": "Res", "l": 1, "p": p, "op": "set", "k": k, "val": v, "ver": pl.Ver, "ok": err == nil, "res": ""})
+					vl.emit(ev{"a": "Res", "l": 1, "p": p, "op": "set", "k": k, "val": v*8 + 1, "ver": pl.Ver, "ok": err == nil, "res": ""})
 				} else if x < 6 {
 					pl := GetPayloadForDelete()
 					pl.TS = 1
